@@ -9,8 +9,15 @@ namespace PGV
 
 abbrev Bytes := List UInt8
 
-/-- ASCII literal as bytes (UTF-8 encoding of a Lean string). -/
+/-- a Lean string as bytes (UTF-8 encoding); used for computed strings only -/
 def b (s : String) : Bytes := s.toUTF8.toList
+
+/-- `b! "lit"`: a string literal as an explicit list of byte numerals (expanded at elaboration
+time, so that the kernel can compute with it: `decide`, `rfl`, `simp`) -/
+macro "b!" s:str : term => do
+  let bytes := s.getString.toUTF8.toList
+  let elems ← bytes.toArray.mapM fun x => `(($(Lean.quote x.toNat) : UInt8))
+  `(([$elems,*] : Bytes))
 
 namespace Bytes
 
